@@ -664,6 +664,11 @@ fn spawn_async_ao_list_in_task'''),
         ('descriptor-search-starts-at-62', 'brush-core/src/interp.rs', "    let mut candidate_fd_num = 63;", "    let mut candidate_fd_num = 62;"),
         ('descriptor-search-may-return-zero', 'brush-core/src/interp.rs', "        if candidate_fd_num == 0 {\n            return error::unimp(\"no available file descriptors\");\n        }\n    }\n\n    Ok((candidate_fd_num, target_file))", "        if candidate_fd_num < 0 {\n            return error::unimp(\"no available file descriptors\");\n        }\n    }\n\n    Ok((candidate_fd_num, target_file))"),
     ],
+    'U73': [
+        ('every-field-of-a-piece-glued-onto-the-last-field', 'brush-core/src/expansion.rs', "                    Some(last) if i == 0 => {\n                        last.0.append(&mut field.0);", "                    Some(last) => {\n                        last.0.append(&mut field.0);"),
+        ('first-field-of-a-piece-stands-alone', 'brush-core/src/expansion.rs', "                    Some(last) if i == 0 => {", "                    Some(last) if i == 1 => {"),
+        ('flags-of-the-first-piece-kept', 'brush-core/src/expansion.rs', "            acc.concatenate = expansion.concatenate;\n            acc.from_array = expansion.from_array;", "            acc.from_array = acc.from_array || expansion.from_array;\n            acc.concatenate = expansion.concatenate;"),
+    ],
     'U72': [
         ('fields-globbed-although-noglob-is-on', 'brush-core/src/expansion.rs', "            if self.disable_pathname_expansion || self.shell.options().disable_filename_globbing {", "            if self.disable_pathname_expansion && self.shell.options().disable_filename_globbing {"),
         ('a-field-whose-pattern-fails-is-skipped', 'brush-core/src/expansion.rs', "                result.extend(self.expand_pathnames_in_field(field)?);", "                if let Ok(paths) = self.expand_pathnames_in_field(field) {\n                    result.extend(paths);\n                }"),
